@@ -431,6 +431,10 @@ def display_result(r, out, brackets_for_frac=False, newline=True, unit_format_fn
             if i < len(r)-1:
                 print(", ", file=out, end="")
         print("}", file=out, **newline_args)
+    elif isinstance(r, Interval):
+        # Not print(r): Interval.__str__ shows float bounds in full repr,
+        # ignoring the precision option.
+        print(stringify_result(r), file=out, **newline_args)
     else:
         print(r, file=out, **newline_args)
 
